@@ -70,6 +70,8 @@ struct World {
     c: Chain,
     st: Addr,
     tok: Tok,
+    /// the native staking denom of this world (also set, unused, for cw20 configurations)
+    denom: String,
     other_cw20: Addr,
     tpw: u128,
     min_bond: u128,
@@ -103,7 +105,7 @@ struct Snap {
 impl World {
     fn token_balance(&self, a: &str) -> u128 {
         match &self.tok {
-            Tok::Native => self.c.bank(a, STAKE_DENOM),
+            Tok::Native => self.c.bank(a, &self.denom),
             Tok::Cw20(t) => self.c.cw20_balance(t, a),
         }
     }
@@ -202,9 +204,15 @@ impl Stake {
         let big = 1u128 << 100;
         let bals: Vec<(String, u128)> = users.iter().map(|u| (u.clone(), big)).collect();
         let other_cw20 = c.new_cw20(false, &bals, None);
+        // bank denoms are case sensitive: most worlds stake "ustake", some an IBC voucher or a mixed-case denom
+        let denom: String = match h.idx % 7 {
+            3 => "ibc/27394FB092D2ECCD56123C74F36E4C1F926001CEADA9CA97EA622B25F41E5EB2".to_string(),
+            5 => "uStake".to_string(),
+            _ => STAKE_DENOM.to_string(),
+        };
         let tok = if h.rng.chance(1, 2) {
             for u in &users {
-                c.fund(u, big, STAKE_DENOM);
+                c.fund(u, big, &denom);
                 c.fund(u, 1_000_000, OTHER_DENOM);
             }
             Tok::Native
@@ -237,7 +245,7 @@ impl Stake {
         let admin = mk_addr("stake-admin");
         let msg = InstantiateMsg {
             denom: match &tok {
-                Tok::Native => Denom::Native(STAKE_DENOM.into()),
+                Tok::Native => Denom::Native(denom.clone()),
                 Tok::Cw20(a) => Denom::Cw20(a.clone()),
             },
             tokens_per_weight: Uint128::new(tpw),
@@ -256,6 +264,7 @@ impl Stake {
             c,
             st,
             tok,
+            denom,
             other_cw20,
             tpw,
             min_bond,
@@ -358,7 +367,7 @@ impl Stake {
         match op {
             Op::Bond { amount } => match w.tok.clone() {
                 Tok::Native => {
-                    let f: Vec<Coin> = if *amount == 0 { vec![] } else { vec![coin(*amount, STAKE_DENOM)] };
+                    let f: Vec<Coin> = if *amount == 0 { vec![] } else { vec![coin(*amount, w.denom.clone())] };
                     w.c.exec(sender, &st, &ExecuteMsg::Bond {}, &f)
                 }
                 Tok::Cw20(t) => w.c.exec(
@@ -369,7 +378,12 @@ impl Stake {
                 ),
             },
             Op::BondWrongDenom { amount } => w.c.exec(sender, &st, &ExecuteMsg::Bond {}, &[coin(*amount, OTHER_DENOM)]),
-            Op::BondTwoCoins { amount } => w.c.exec(sender, &st, &ExecuteMsg::Bond {}, &[coin(*amount, OTHER_DENOM), coin(*amount, STAKE_DENOM)]),
+            Op::BondTwoCoins { amount } => {
+                // a second coin of another denom, or (odd amounts) the staking denom listed twice
+                let first = if *amount % 2 == 1 { w.denom.clone() } else { OTHER_DENOM.to_string() };
+                let f = [coin(*amount, first), coin(*amount, w.denom.clone())];
+                w.c.exec(sender, &st, &ExecuteMsg::Bond {}, &f)
+            }
             Op::BondNoFunds => w.c.exec(sender, &st, &ExecuteMsg::Bond {}, &[]),
             Op::BondOtherCw20 { amount } => {
                 let t = w.other_cw20.clone();
@@ -384,13 +398,19 @@ impl Stake {
                 let d = match &w.tok {
                     Tok::Cw20(a) => a.to_string(),
                     // a different bank token whose name differs from the staking denom in letter case only
-                    Tok::Native => match *amount % 5 {
-                        0 => STAKE_DENOM.to_uppercase(),
-                        1 => "Ustake".to_string(),
-                        2 => format!("factory/cosmwasm1xyz/{STAKE_DENOM}"), // has the staking denom as a suffix
-                        3 => format!("x{STAKE_DENOM}"),
-                        _ => format!("{STAKE_DENOM}x"),                      // ... or as a prefix
-                    },
+                    Tok::Native => {
+                        let d = w.denom.clone();
+                        let cand = match *amount % 6 {
+                            0 => d.to_uppercase(),
+                            1 => d.to_lowercase(),
+                            2 => format!("factory/cosmwasm1xyz/{d}"), // has the staking denom as a suffix
+                            3 => format!("x{d}"),
+                            4 => format!("{d}x"),                      // ... or as a prefix
+                            _ => format!(" {d}"),
+                        };
+                        // never the real thing
+                        if cand == d { format!("{d}.") } else { cand }
+                    }
                 };
                 w.c.fund(sender, *amount, &d);
                 w.c.exec(sender, &st, &ExecuteMsg::Bond {}, &[coin(*amount, d)])
@@ -413,7 +433,7 @@ impl Stake {
             }
             Op::UpdateAdmin { admin } => w.c.exec(sender, &st, &ExecuteMsg::UpdateAdmin { admin: admin.clone() }, &[]),
             Op::Donate { amount } => match w.tok.clone() {
-                Tok::Native => w.c.exec_cosmos(sender, cosmwasm_std::BankMsg::Send { to_address: st.to_string(), amount: vec![coin(*amount, STAKE_DENOM)] }.into()),
+                Tok::Native => w.c.exec_cosmos(sender, cosmwasm_std::BankMsg::Send { to_address: st.to_string(), amount: vec![coin(*amount, w.denom.clone())] }.into()),
                 Tok::Cw20(t) => w.c.exec(sender, &t, &cw20::Cw20ExecuteMsg::Transfer { recipient: st.to_string(), amount: Uint128::new(*amount) }, &[]),
             },
         }
